@@ -40,70 +40,80 @@ Inductive ccase :=
 
 (* codes:  1 round trip / decoded value wrong   2 encoded string outside the lexical form   3 encoder differs from the model
            4 decoder differs from the model (accepts what it must reject, rejects what it must read, or another value)
-           9 only leniency of datetime.fromisoformat outside xsd:dateTime (not an alarm) *)
+           9 only leniency of datetime.fromisoformat outside xsd:dateTime (not an alarm).
+   The property's own predicates (1, 2) are evaluated first, on the implementation's outputs alone; then the comparison with the model (3, 4). *)
 Definition chk18 (css : list (str * (Z * Z * Z))) (c : ccase) : nat :=
   match c with
   | CDur us enc dec =>
-      if negb (dur_lexical enc) then 2
+      if (us mod 1000000 =? 0)%Z && negb (optZ_eqb dec (Some us)) then 1
+      else if negb (dur_lexical enc) then 2
       else if negb (str_eqb enc (dur_encode us)) then 3
       else if negb (optZ_eqb dec (dur_decode enc)) then 4
-      else if (us mod 1000000 =? 0)%Z && negb (optZ_eqb dec (Some us)) then 1
       else 0
   | CDurDec t out =>
-      if optZ_eqb out (dur_decode t) then
-        match out with Some _ => if dur_lexical t then 0 else 2 | None => 0 end
-      else 4
+      match out with
+      | Some v => if negb (dur_lexical t) then 2 else if optZ_eqb out (dur_decode t) then 0 else 1
+      | None => if optZ_eqb out (dur_decode t) then 0 else 4
+      end
   | CBool b enc dec =>
-      if negb (bool_lexical enc) then 2
+      if negb (optbool_eqb dec (Some b)) then 1
+      else if negb (bool_lexical enc) then 2
       else if negb (str_eqb enc (bool_encode b)) then 3
-      else if negb (optbool_eqb dec (bool_decode enc)) then 4
-      else if negb (optbool_eqb dec (Some b)) then 1 else 0
-  | CBoolDec t out => if optbool_eqb out (bool_decode t) then 0 else 4
+      else if negb (optbool_eqb dec (bool_decode enc)) then 4 else 0
+  | CBoolDec t out =>
+      match out with
+      | Some v => if negb (bool_lexical t) then 2 else if optbool_eqb out (bool_decode t) then 0 else 1
+      | None => if optbool_eqb out (bool_decode t) then 0 else 4
+      end
   | CDate y m d enc dec =>
-      if negb (date_lexical enc) then 2
+      if negb (optdt_eqb dec (Some (midnight y m d))) then 1
+      else if negb (date_lexical enc) then 2
       else if negb (str_eqb enc (date_encode y m d)) then 3
-      else if negb (optdt_eqb dec (date_decode enc)) then 4
-      else if negb (optdt_eqb dec (Some (midnight y m d))) then 1 else 0
+      else if negb (optdt_eqb dec (date_decode enc)) then 4 else 0
   | CDateOfDt d enc =>
       if negb (date_lexical enc) then 2
       else if negb (str_eqb enc (date_encode (yr d) (mo d) (dy d))) then 3 else 0
   | CDt d enc dec =>
+      if negb (optdt_eqb dec (Some d)) then 1
       (* an offset with a seconds part has no xsd:dateTime form at all: outside the lexical claim, still compared with the model *)
-      if whole_minute_tz (tz d) && negb (datetime_lexical enc) then 2
+      else if whole_minute_tz (tz d) && negb (datetime_lexical enc) then 2
       else if negb (str_eqb enc (datetime_encode d)) then 3
-      else if negb (optdt_eqb dec (datetime_decode enc)) then 4
-      else if negb (optdt_eqb dec (Some d)) then 1 else 0
+      else if negb (optdt_eqb dec (datetime_decode enc)) then 4 else 0
   | CDtDec t out =>
       match datetime_decode t, out with
-      | Some v, Some w => if dtime_eqb v w then 0 else 4
+      | Some v, Some w => if dtime_eqb v w then 0 else 1
       | Some _, None => 4
       | None, Some _ => 9
       | None, None => 0
       end
   | CRgb r g b enc dec =>
-      if negb (optstr_eqb enc (rgb2hex r g b)) then 3
-      else match enc with
-           | None => 0
-           | Some e =>
-             if negb (color_lexical e) then 2
-             else if negb (optrgb_eqb dec (hex2rgb e)) then 4
-             else if negb (optrgb_eqb dec (Some (Z.to_N r, Z.to_N g, Z.to_N b))) then 1 else 0
-           end
+      let inr := ((0 <=? r) && (r <=? 255) && (0 <=? g) && (g <=? 255) && (0 <=? b) && (b <=? 255))%Z in
+      match enc with
+      | None => if inr then 3 else 0
+      | Some e =>
+        if negb inr then 3
+        else if negb (optrgb_eqb dec (Some (Z.to_N r, Z.to_N g, Z.to_N b))) then 1
+        else if negb (color_lexical e) then 2
+        else if negb (optstr_eqb enc (rgb2hex r g b)) then 3
+        else if negb (optrgb_eqb dec (hex2rgb e)) then 4 else 0
+      end
   | CHexDec t out =>
-      if optrgb_eqb out (hex2rgb t) then
-        match out with Some _ => if color_lexical t then 0 else 2 | None => 0 end
-      else 4
+      match out with
+      | Some v => if negb (color_lexical t) then 2 else if optrgb_eqb out (hex2rgb t) then 0 else 1
+      | None => if optrgb_eqb out (hex2rgb t) then 0 else 4
+      end
   | CCss name enc dec =>
-      if negb (optstr_eqb enc (rgb2hex_name css name)) then 3
-      else match enc with
-           | None => 0
-           | Some e =>
-             if negb (color_lexical e) then 2
-             else if negb (optrgb_eqb dec (hex2rgb e)) then 4
-             else match lookup (map ascii_lower name) css with
-                  | Some (r, g, b) => if optrgb_eqb dec (Some (Z.to_N r, Z.to_N g, Z.to_N b)) then 0 else 1
-                  | None => 1
-                  end
-           end
+      match enc with
+      | None => if optstr_eqb enc (rgb2hex_name css name) then 0 else 3
+      | Some e =>
+        match lookup (map ascii_lower name) css with
+        | Some (r, g, b) =>
+          if negb (optrgb_eqb dec (Some (Z.to_N r, Z.to_N g, Z.to_N b))) then 1
+          else if negb (color_lexical e) then 2
+          else if negb (optstr_eqb enc (rgb2hex_name css name)) then 3
+          else if negb (optrgb_eqb dec (hex2rgb e)) then 4 else 0
+        | None => 3
+        end
+      end
   | CHexa t out => if optstr_eqb out (hexa_color_str css t) then 0 else 3
   end.
